@@ -169,6 +169,8 @@ def _c18free(tier, seed):
 CHECKS.update({
     "C18": dict(
         level="model_checking", cli=True, python=[_c18free],
+        exhaustive_note="the controlled families (c18, c18aliased) enumerate every schedule within the preemption bound for every file list within the "
+                        "length bound; the c18free family runs each batch once per thread count under the real rayon scheduler: its schedules are sampled, not enumerated",
         rule="stateless, preemption-bounded DFS over the scheduling points (pick/open/write/set_len/report/exit) of the real "
              "pasfmt::format running in-process on K controlled worker threads (verif shim); every file list over the 8-kind alphabet "
              "up to the stated length, in every order; for every complete schedule the final bytes of every file are compared with "
